@@ -530,7 +530,7 @@ func writeEvidence(prop, tier string, seed uint64, plan []planEntry, total int, 
 		"evaluations":         agg.Runs,
 		"distinct_nontrivial": distinct,
 		"rule": "one evaluation = one simulated run of a scenario family case inside a fresh world (seed VERIF_SEED, case index -> scenario, policy and every scheduling/delivery/fault decision). " +
-			"distinct = distinct hash of (scenario, sequence of context switches between task sites, delivery/fault decisions); non-trivial = at least one non-default decision or injected fault happened in the run (enumerated cases count by their distinct case). Families: " + strings.Join(famDesc, "; "),
+			"distinct = distinct hash of (scenario, sequence of context switches between task sites, delivery/fault decisions); non-trivial = at least one non-default decision, injected fault or named rare-event probe happened in the run (enumerated cases count by their distinct case). Families: " + strings.Join(famDesc, "; "),
 		"samples":                    samples,
 		"exhaustive":                 exhaustive,
 		"planned_cases":              total,
